@@ -247,8 +247,13 @@ func Confirms(t Tape, o ReplayOutcome) bool {
 		if o.Outcome != "ok" || len(o.Log) != len(t.Expect) {
 			return false
 		}
-		for i := range o.Log {
-			if o.Log[i] != t.Expect[i] {
+		// compared as multisets: Go's map iteration order is random natively, the executor explores every order
+		a := append([]string(nil), o.Log...)
+		b := append([]string(nil), t.Expect...)
+		sort.Strings(a)
+		sort.Strings(b)
+		for i := range a {
+			if a[i] != b[i] {
 				return false
 			}
 		}
